@@ -478,7 +478,10 @@ class FullBridgeHarness(Harness):
             err = self.quiet(v, "after the transaction(s) completed")
             if err:
                 return env, (err[0], f"{nm}: {err[1]}"), 0
-            return env, None, 0
+            # back to back: the same scenario starts again from whatever state the bridge was left in (a state seen before
+            # unless the bridge kept something).  The environment memory is put back to its initial contents while every
+            # channel is quiet, which no bridge here can observe (none of them caches data).
+            return self.env_init(), None, 0
         mc, sc = ch
         prog, coop = False, True
         cov = self.cov
